@@ -20,6 +20,7 @@ import (
 const (
 	Kelvin = "\u212a" // KELVIN SIGN, strings.EqualFold-equal to k and K
 	LongS  = "\u017f" // LATIN SMALL LETTER LONG S, EqualFold-equal to s and S
+	DotI   = "\u0130" // LATIN CAPITAL LETTER I WITH DOT ABOVE, strings.ToLower gives i
 )
 
 // Variant is a look-alike pair: Base is ASCII-equal in class to the original
@@ -64,14 +65,24 @@ func letterPositions(s string, rng *rand.Rand) []int {
 
 func flipCase(b byte) byte { return b ^ 0x20 }
 
-// FoldVariants builds the look-alike pairs of s.
+var foldChars = []struct {
+	kind  string
+	ascii byte
+	alike string
+}{{"k→U+212A", 'k', Kelvin}, {"K→U+212A", 'K', Kelvin}, {"s→U+017F", 's', LongS}, {"S→U+017F", 'S', LongS},
+	{"i→U+0130", 'i', DotI}, {"I→U+0130", 'I', DotI}}
+
+// nonASCIITails make a name an internationalised one (so that whatever is done
+// only to non-ASCII names - conversion caches... - is exercised as well).
+var nonASCIITails = []string{".рф", ".é", ".пример.рф"}
+
+// FoldVariants builds the look-alike pairs of s: one character replaced by a
+// character that strings.EqualFold or strings.ToLower identify with it, an
+// ASCII case flip, an ACE prefix in upper and lower case in front - each pair
+// also with a non-ASCII label appended to both members.
 func FoldVariants(s string, rng *rand.Rand) (out []Variant) {
 	for _, i := range letterPositions(s, rng) {
-		for _, v := range []struct {
-			kind  string
-			ascii byte
-			alike string
-		}{{"k→U+212A", 'k', Kelvin}, {"K→U+212A", 'K', Kelvin}, {"s→U+017F", 's', LongS}, {"S→U+017F", 'S', LongS}} {
+		for _, v := range foldChars {
 			if rng.IntN(2) == 0 {
 				continue
 			}
@@ -82,6 +93,41 @@ func FoldVariants(s string, rng *rand.Rand) (out []Variant) {
 			out = append(out, Variant{Kind: v.kind, Base: base, Alike: s[:i] + v.alike + s[i+1:]})
 		}
 		out = append(out, Variant{Kind: "ASCII case flip", Base: s, Alike: s[:i] + string(flipCase(s[i])) + s[i+1:]})
+	}
+	// "XN--0" is a plain label, "xn--0" is broken punycode.
+	ace := []string{"0", "zz", "a-"}[rng.IntN(3)]
+	out = append(out, Variant{Kind: "ACE prefix case", Base: "XN--" + ace + "." + s, Alike: "xn--" + ace + "." + s})
+	for _, v := range out {
+		if rng.IntN(2) == 0 {
+			tail := nonASCIITails[rng.IntN(len(nonASCIITails))]
+			out = append(out, Variant{Kind: v.Kind + ", internationalised name", Base: v.Base + tail, Alike: v.Alike + tail})
+		}
+	}
+	return out
+}
+
+// LimitPairs are look-alike pairs at the label limit, built independently of
+// the sampled inputs: a label of 59..63 bytes made of one letter, one or all of
+// its letters replaced by the folding look-alike, with ASCII and non-ASCII
+// neighbours, and ACE prefixes in both cases next to non-ASCII labels.
+func LimitPairs() (out []Variant) {
+	tails := []string{"", ".com", ".рф", ".é.com", ".a.пример.рф"}
+	for _, v := range foldChars {
+		for n := 59; n <= 63; n++ {
+			base := strings.Repeat(string(v.ascii), n)
+			for _, alike := range []string{v.alike + base[1:], base[:n-1] + v.alike, strings.Repeat(v.alike, n)} {
+				for _, tail := range tails {
+					out = append(out, Variant{Kind: v.kind + " at the label limit", Base: base + tail, Alike: alike + tail})
+				}
+			}
+		}
+	}
+	for _, ace := range []string{"0", "zz", "a-", "-"} {
+		for _, tail := range []string{".com", ".рф", ".a.пример.рф", ".é"} {
+			for _, up := range []string{"XN--", "Xn--", "xN--"} {
+				out = append(out, Variant{Kind: "ACE prefix case", Base: up + ace + tail, Alike: "xn--" + ace + tail})
+			}
+		}
 	}
 	return out
 }
@@ -137,6 +183,32 @@ func History(entries []Entry, rng *rand.Rand, report func(fn, key, what string, 
 		report(fn, s, what+" ("+ctxt+", order "+orderName(order)+")", detail)
 		return false
 	}
+	// accepted name first, then its look-alike, and the other way round; each member
+	// through every validator, judged by idna.ToASCII + grammar.
+	pair := func(v Variant) {
+		_, _, wb := Expected(v.Base)
+		_, _, wa := Expected(v.Alike)
+		d := func() map[string]any { return map[string]any{"base": v.Base, "look_alike": v.Alike, "variant": v.Kind} }
+		judge(v.Base, wb, LenientToStrict, "before its look-alike", d())
+		judge(v.Alike, wa, LenientToStrict, "look-alike ("+v.Kind+") validated right after "+shortQ(v.Base), d())
+		judge(v.Alike, wa, StrictToLenient, "look-alike ("+v.Kind+") first", d())
+		judge(v.Base, wb, StrictToLenient, "right after its look-alike ("+v.Kind+")", d())
+	}
+	for _, v := range LimitPairs() {
+		pair(v)
+		// and a fresh spelling the other way round: look-alike first
+		w := Variant{Kind: v.Kind, Base: "z" + v.Base, Alike: "z" + v.Alike}
+		if strings.HasPrefix(strings.ToLower(v.Base), "xn--") {
+			w = Variant{Kind: v.Kind, Base: v.Base + "x", Alike: v.Alike + "x"}
+		}
+		{
+			_, _, wb := Expected(w.Base)
+			_, _, wa := Expected(w.Alike)
+			d := map[string]any{"base": w.Base, "look_alike": w.Alike, "variant": w.Kind}
+			judge(w.Alike, wa, LenientToStrict, "look-alike ("+w.Kind+") first", d)
+			judge(w.Base, wb, LenientToStrict, "right after its look-alike ("+w.Kind+")", d)
+		}
+	}
 	for _, e := range entries {
 		if !judge(e.S, e.Want, orders[rng.IntN(len(orders))], "second pass over the shuffled inputs", map[string]any{}) {
 			continue
@@ -145,15 +217,7 @@ func History(entries []Entry, rng *rand.Rand, report func(fn, key, what string, 
 			continue
 		}
 		for _, v := range FoldVariants(e.S, rng) {
-			_, _, wb := Expected(v.Base)
-			_, _, wa := Expected(v.Alike)
-			d := func() map[string]any { return map[string]any{"base": v.Base, "look_alike": v.Alike, "variant": v.Kind} }
-			// accepted name first, then its look-alike ...
-			judge(v.Base, wb, LenientToStrict, "before its look-alike", d())
-			judge(v.Alike, wa, LenientToStrict, "look-alike ("+v.Kind+") validated right after "+shortQ(v.Base), d())
-			// ... and the other way round.
-			judge(v.Alike, wa, StrictToLenient, "look-alike ("+v.Kind+") first", d())
-			judge(v.Base, wb, StrictToLenient, "right after its look-alike ("+v.Kind+")", d())
+			pair(v)
 		}
 	}
 	return calls
